@@ -8,6 +8,7 @@ mod dbgen;
 mod dbq;
 mod dbrun;
 mod failrun;
+mod dbsmall;
 mod gen_types;
 mod rng;
 mod sexp;
@@ -150,6 +151,24 @@ fn main() {
                 let mut hr = r.fork();
                 dbrun::run_history(&mut hr, &opts, &mut o, h);
             }
+            write_lines(&format!("{}/cases.txt", out), &o.cases);
+            write_lines(&format!("{}/impl.txt", out), &o.imp);
+            write_lines(&format!("{}/oracle.txt", out), &o.oracle);
+            write_stats(&format!("{}/stats.json", out), &o.stats, o.histories, o.nontrivial, &o.samples);
+        }
+        "dbsmall" => {
+            // exhaustive small multigraphs: --nodes N --edges M --rev R --out DIR [--paths 0|1] [--traverse 0|1] [--reuse-full L] [--reuse-k K]
+            let opts = dbsmall::SmallOpts {
+                nodes: arg(&args, "--nodes", "3").parse().unwrap(),
+                edges: arg(&args, "--edges", "3").parse().unwrap(),
+                rev: arg(&args, "--rev", "pinned"),
+                paths: arg(&args, "--paths", "1") == "1",
+                traverse: arg(&args, "--traverse", "1") == "1",
+                reuse_full: arg(&args, "--reuse-full", "5").parse().unwrap(),
+                reuse_k: arg(&args, "--reuse-k", "8").parse().unwrap(),
+            };
+            let mut o = dbrun::Out::new();
+            dbsmall::run(&opts, &mut o);
             write_lines(&format!("{}/cases.txt", out), &o.cases);
             write_lines(&format!("{}/impl.txt", out), &o.imp);
             write_lines(&format!("{}/oracle.txt", out), &o.oracle);
